@@ -202,3 +202,14 @@ Definition dump_of (s : st) : dump :=
   (map (fun ko => (fst ko, (ocfg (snd ko), oline (snd ko), osvc (snd ko)))) (scenes s),
    lines s,
    map (fun kt => (fst kt, (snum (snd kt), swork (snd kt), slast (snd kt), sfail (snd kt)))) (services s)).
+
+(* one concrete trace of the model: where several results are admissible, take the first *)
+Definition pick (l : list res) : res := match l with r :: _ => r | [] => RUnit end.
+
+Fixpoint run_obs (s : st) (ops : list op) : list (res * dump) :=
+  match ops with
+  | [] => []
+  | o :: r => let '(s1, adm) := step s o in (pick adm, dump_of s1) :: run_obs s1 r
+  end.
+
+Definition run (ops : list op) : list (res * dump) := run_obs init ops.
